@@ -1770,6 +1770,12 @@ def simplify_block(block, facts=None):
             known = None
             if isinstance(st.test, ast.Constant) and isinstance(st.test.value, bool):
                 known = st.test.value
+            if isinstance(st.test, ast.Compare) and len(st.test.ops) == 1 \
+                    and isinstance(st.test.ops[0], (ast.Is, ast.IsNot)) \
+                    and isinstance(st.test.left, ast.Name) \
+                    and isinstance(st.test.comparators[0], ast.Name) \
+                    and st.test.left.id == st.test.comparators[0].id:
+                known = isinstance(st.test.ops[0], ast.Is)      # X is X
             tf = _type_fact(st.test)
             if known is None and tf is not None and tf[0] in facts:
                 known = facts[tf[0]][0] == tf[1]
